@@ -141,8 +141,9 @@ def check(ctx):
                     ok = ok and len(per) == 2 and "arm_to_success_count" in per[0] and \
                         "arm_to_fail_count" not in per[0] and "arm_to_fail_count" in per[1] and \
                         "arm_to_success_count" not in per[1]
-                    args = [ast.unparse(a) for a in call.args] if isinstance(call, ast.Call) else []
-                    keyed = len(args) >= 2 and args[0].endswith("[arm]") and args[1].endswith("[arm]")
+                    cargs = list(call.args) if isinstance(call, ast.Call) else []
+                    keyed = len(cargs) >= 2 and all(isinstance(a, ast.Subscript) and isinstance(a.slice, ast.Name)
+                                                    for a in cargs[:2]) and cargs[0].slice.id == cargs[1].slice.id
                     ctx.check(ok and keyed, "R1.2", "Thompson sampler is beta(success[arm], fail[arm])", call, fnc,
                               "sampler arguments depend on %s" % sorted(locs))
         # Random: no data field
